@@ -234,11 +234,17 @@ func (e *ExecutionEngine) Execute(ctx context.Context, operation *graphql.Reques
 	// Validate user-supplied and extracted variables against the (remapped) operation.
 	// ValidateWithRemap translates renamed names back to originals for both JSON lookup
 	// and error messages, so users still see their declared variable names in errors.
-	if len(operation.Variables) > 0 && operation.Variables[0] == '{' {
+	// A request without variables (or with variables: null) provides no values: validate it like {},
+	// so that missing required variables are reported.
+	variables := []byte(operation.Variables)
+	if len(variables) == 0 || string(variables) == "null" {
+		variables = []byte("{}")
+	}
+	if variables[0] == '{' {
 		validator := variablesvalidation.NewVariablesValidator(variablesvalidation.VariablesValidatorOptions{
 			ApolloCompatibilityFlags: e.apolloCompatibilityFlags,
 		})
-		if err := validator.ValidateWithRemap(operation.Document(), e.config.schema.Document(), operation.Variables, remapVariables); err != nil {
+		if err := validator.ValidateWithRemap(operation.Document(), e.config.schema.Document(), variables, remapVariables); err != nil {
 			return err
 		}
 	}
